@@ -313,6 +313,7 @@ func (c *c05) Plan(seed uint64, tier string, worker, workers, idx int) *Plan {
 		}
 		if k < 0 {
 			// files whose Stat size is not the number of bytes they deliver
+			ops = append(ops, Op{Kind: "file", In: &in, FileKind: "fifo", Del: c05Delivery(r, 2, -1, false), NameExt: nameExt(r)})
 			ops = append(ops, Op{Kind: "file", In: &in, StatSize: 1})
 			ops = append(ops, Op{Kind: "file", In: &in, StatSize: 1 + n/2, Del: c05Delivery(r, r.Intn(5), -1, false)})
 			ops = append(ops, Op{Kind: "reader", Wrap: "osfile", In: &in, StatSize: 1 + r.Intn(n+1)})
@@ -327,6 +328,7 @@ func (c *c05) Plan(seed uint64, tier string, worker, workers, idx int) *Plan {
 		for _, fk := range []string{"enoent", "eacces", "dir", "real", "real-missing", "real-dir", "real-proc"} {
 			ops = append(ops, Op{Kind: "file", In: &in, FileKind: fk})
 		}
+		ops = append(ops, Op{Kind: "file", In: &in, FileKind: "real", NameExt: extMenu[r.Intn(len(extMenu))]})
 	}
 	// an interlude with another limit and another input: state must not be carried across calls
 	if r.Chance(1, 3) && len(ops) > 2 {
@@ -459,7 +461,7 @@ func (c *c05) Check(rr *RunResult, st *Stats) []Failure {
 		}
 		k := d.FaultAt
 		reach, corner := FaultReach(d, n, limit)
-		if op.Wrap == "limited" && reach && k == n && !d.FaultWithData && LimitedN(n, oi) == n {
+		if op.Wrap == "limited" && reach && k == n && (!d.FaultWithData || k == 0) && LimitedN(n, oi) == n {
 			// the LimitedReader has handed out its N bytes and answers io.EOF itself: the
 			// failing Read of the stream below is never issued
 			reach = false
